@@ -88,7 +88,7 @@ var customMethods = []string{"PROPFIND", "FOO", "get", "QUERY", "M-SEARCH"}
 var patternPool = []string{
 	"/", "/a", "/a/", "/b", "/b/", "/ab", "/ab/", "/a/b", "/a/b/", "/{x}", "/{x}/", "/a/{x}", "/a/{x}/",
 	"/{x}/b", "/{x}/b/", "/{x}/{y}", "/{x}/{y}/", "/*{w}", "/a/*{w}", "/b/*{w}/", "/a/b/{x}/", "/a{x}", "/a{x}/",
-	"/c:d", "/c:d/", "/a/b/c", "/a/b/c/", "/ab/{x}", "/ab/{x}/", "/b/{x}/c/", "/{x}/b/{y}",
+	"/c:d", "/c:d/", "/a/b/c", "/a/b/c/", "/ab/{x}", "/ab/{x}/", "/b/{x}/c/", "/{x}/b/{y}", "/{x}/{y}/{z}/", "/{x}/{y}/{z}",
 }
 var hostPatterns = []string{"ex.com/", "ex.com/a/", "ex.com/{x}", "ex.com/{x}/", "{sub}.ex.com/a", "{sub}.ex.com/a/", "ex.com/a/b"}
 
@@ -245,9 +245,17 @@ func instantiate(rnd *hx.Rand, pattern string) string {
 	return sb.String()
 }
 
-func genWire(rnd *hx.Rand, r *rtr) string {
+func genWire(rnd *hx.Rand, r *rtr, method string) string {
 	var p string
+	var same []routeID
+	for _, id := range r.routes {
+		if id.method == method {
+			same = append(same, id)
+		}
+	}
 	switch {
+	case len(same) > 0 && rnd.Pct(45):
+		p = instantiate(rnd, same[rnd.Intn(len(same))].pattern)
 	case len(r.routes) > 0 && rnd.Pct(70):
 		p = instantiate(rnd, r.routes[rnd.Intn(len(r.routes))].pattern)
 	case rnd.Pct(70):
@@ -265,7 +273,7 @@ func genWire(rnd *hx.Rand, r *rtr) string {
 			p += "/"
 		}
 	}
-	if rnd.Pct(6) { // not clean
+	if rnd.Pct(10) { // not clean
 		switch rnd.Intn(4) {
 		case 0:
 			p = strings.Replace(p, "/", "//", 1)
@@ -321,10 +329,10 @@ func genRequest(rnd *hx.Rand, r *rtr, st *hx.Stats) *reqCase {
 	}
 	if rnd.Pct(8) {
 		// hand-built request: URL.Path and URL.RawPath chosen independently
-		p := genWire(rnd, r)
+		p := genWire(rnd, r, method)
 		rp := ""
 		if rnd.Pct(70) {
-			rp = genWire(rnd, r)
+			rp = genWire(rnd, r, method)
 		}
 		if rnd.Pct(30) {
 			p = "/"
@@ -347,7 +355,7 @@ func genRequest(rnd *hx.Rand, r *rtr, st *hx.Stats) *reqCase {
 	case k < 10:
 		wire = "/"
 	default:
-		wire = genWire(rnd, r)
+		wire = genWire(rnd, r, method)
 	}
 	target := wire
 	if q := hx.Pick(rnd, queries); q != "" && wire != "*" {
@@ -460,6 +468,16 @@ func runCase(r *rtr, rc *reqCase, st *hx.Stats) (term, human string, nontrivial 
 		}
 		table = append(table, e)
 	}
+	// what the non-lazy lookup for the request's own method leaves in the context
+	_, _, recP, recT := r.f.VerifRecorded(rq.Method, rq.Host, path)
+	toPairs := func(ps []fox.Param) [][2]string {
+		var out [][2]string
+		for _, p := range ps {
+			out = append(out, [2]string{p.Key, p.Value})
+		}
+		return out
+	}
+	recParams, recTsr := toPairs(recP), toPairs(recT)
 	tableTerm := hx.ListOf(table, func(e entry) string {
 		return hx.Pair(hx.Bytes(e.method), hx.Opt(e.found, "("+rtTerm(e.id)+", "+hx.Bool(e.tsr)+", "+paramsTerm(e.params)+")"))
 	})
@@ -536,10 +554,10 @@ func runCase(r *rtr, rc *reqCase, st *hx.Stats) (term, human string, nontrivial 
 		}
 	}
 	regs := hx.SortedKeys(r.registered)
-	term = fmt.Sprintf("(Build_kase (Build_options %s %s) %s %s %s %s %s %s %s %s %s %s)",
+	term = fmt.Sprintf("(Build_kase (Build_options %s %s) %s %s %s %s %s %s %s %s %s %s %s %s)",
 		hx.Bool(r.nomethod), hx.Bool(r.autoopt), hx.List(roots), hx.ListOf(regs, hx.Bytes), tableTerm,
 		hx.Bytes(rq.Method), hx.Opt(rc.hasW, hx.Bytes(rc.wire)), hx.Bytes(rq.URL.Path), hx.Bytes(rq.URL.RawPath),
-		hx.Bytes(rq.URL.EscapedPath()), hx.Bytes(rq.URL.RawQuery), obsTerm)
+		hx.Bytes(rq.URL.EscapedPath()), hx.Bytes(rq.URL.RawQuery), paramsTerm(recParams), paramsTerm(recTsr), obsTerm)
 	var lk []string
 	for _, e := range table {
 		if e.found {
@@ -551,6 +569,29 @@ func runCase(r *rtr, rc *reqCase, st *hx.Stats) (term, human string, nontrivial 
 	human = fmt.Sprintf("router{%s} request{%s %s Host=%s URL.Path=%q RawPath=%q RawQuery=%q origin=%s} lookup{%s} => %s",
 		r.sig, rq.Method, hx.Quote(rc.wire), rq.Host, rq.URL.Path, rq.URL.RawPath, rq.URL.RawQuery, rc.origin,
 		strings.Join(lk, " "), obsHuman)
+	branch := "no-match"
+	for _, e := range table {
+		if e.method == rq.Method && e.found {
+			switch {
+			case !e.tsr:
+				branch = "direct"
+			case rq.Method == "CONNECT" || rq.URL.Path == "/":
+				branch = "tsr:connect-or-root"
+			case e.id.ign:
+				branch = "tsr:ignore"
+			case e.id.red && fox.CleanPath(path) == path:
+				branch = "tsr:redirect"
+			case e.id.red:
+				branch = "tsr:redirect-unclean"
+			default:
+				branch = "tsr:no-option"
+			}
+		}
+	}
+	st.Count("branch:" + branch)
+	if kind != "route" && kind != "redirect" && len(recParams) > 0 {
+		st.Count("scrub:leftover-params-before-special-handler")
+	}
 	nontrivial = kind != "route" || (len(table) > 0 && func() bool {
 		for _, e := range table {
 			if e.method == rq.Method && e.found && e.tsr {
@@ -602,6 +643,8 @@ func corpus(st *hx.Stats, add func(r *rtr, rc *reqCase, tag string)) {
 		{true, true, "", []rdef{{"GET", "/a", ""}, {"FOO", "/b", ""}, {"OPTIONS", "/c", ""}}, "OPTIONS", "*"},
 		{true, false, "", []rdef{{"GET", "/{x}/y", ""}, {"POST", "/{x}/z", ""}}, "GET", "/v/z"},
 		{false, true, "ignore", []rdef{{"CONNECT", "/a/", ""}, {"GET", "/a/", ""}}, "CONNECT", "/a"},
+		{true, false, "redirect", []rdef{{"GET", "/{x}/{y}/", ""}, {"POST", "/{x}/{y}", ""}}, "GET", "/./a"},
+		{false, false, "redirect", []rdef{{"GET", "/{x}/{y}/", ""}}, "GET", "/a//b"},
 	}
 	for _, cs := range cases {
 		r := &rtr{byPtr: map[*fox.Route]routeID{}, registered: map[string]bool{}, nomethod: cs.nomethod, autoopt: cs.autoopt, global: cs.global}
